@@ -33,6 +33,10 @@ type caseCfg struct {
 	Steps      int  `json:"steps"`
 	ShutdownAt int  `json:"shutdown_at"`
 	Real       bool `json:"real_loop"`
+	// ShutdownIn: "" = the driver cancels the context at step ShutdownAt
+	// (wherever the client is parked then); "timer"/"readiness" = from
+	// that step on, the next such callback inside Run cancels it.
+	ShutdownIn string `json:"shutdown_in,omitempty"`
 }
 
 // execView is the driver's private view of an execution, derived from events.
@@ -57,6 +61,7 @@ type driver struct {
 	gate        chan struct{}
 
 	shutdownDone  bool
+	armedSteps    int
 	stepsAfter    int
 	postBudget    int
 	errorsOnly    bool
@@ -91,6 +96,7 @@ func runCase(r *ev.Run, cfg caseCfg) {
 		if m.cur != nil {
 			m.sendDoneAtTimer = m.cur.sendDone
 		}
+		m.shutdownInHook("timer")
 		m.shutdownAtHook = m.shutdownAtHook || m.shutdownBegun
 		if now := clk.Now(); !m.mayThink && now.Before(m.looseNextSync) {
 			// The client waits for updates although the scheduler
@@ -107,6 +113,7 @@ func runCase(r *ev.Run, cfg caseCfg) {
 	bc := builder.NewBuildClient(fakeScheduler{m}, fakeExecutor{m}, nil, clk, map[string]string{"hostname": "verif"}, util.Must(digest.NewInstanceName("prefix")), platform, 0)
 
 	ctx, cancel := context.WithCancel(context.Background())
+	m.stop = cancel
 	d := &driver{m: m, cfg: cfg, clk: clk, stop: cancel, views: map[*execRec]*execView{}, gate: make(chan struct{})}
 	// The action PRNG depends on the base only, so that variants of one base
 	// share their prefix up to the shutdown step.
@@ -367,7 +374,20 @@ func (d *driver) run() {
 			return
 		}
 		if !d.shutdownDone && step >= d.cfg.ShutdownAt {
-			d.shutdown()
+			d.m.mu.Lock()
+			begun := d.m.shutdownBegun
+			if !begun && d.cfg.ShutdownIn != "" && d.armedSteps == 0 {
+				d.m.armedShutdown = d.cfg.ShutdownIn
+				d.m.logf("driver: shutdown armed for the next %s hook", d.cfg.ShutdownIn)
+			}
+			d.m.mu.Unlock()
+			d.armedSteps++
+			switch {
+			case begun:
+				d.shutdownDone = true // done by a hook inside Run
+			case d.cfg.ShutdownIn == "" || d.armedSteps > 12:
+				d.shutdown()
+			}
 		}
 		if d.shutdownDone {
 			d.stepsAfter++
@@ -388,6 +408,11 @@ func (d *driver) shutdown() {
 	d.shutdownDone = true
 	d.stop()
 	d.m.mu.Lock()
+	if d.m.shutdownBegun {
+		d.m.mu.Unlock()
+		return
+	}
+	d.m.armedShutdown = ""
 	d.m.shutdownBegun = true
 	d.m.logf("driver: SHUTDOWN (context cancelled)")
 	d.m.histf("X")
@@ -416,9 +441,17 @@ func (d *driver) fireTimer() {
 	// Relax the freshness rule before the timer can be observed.
 	d.m.mu.Lock()
 	d.m.timerFired = true
+	// Is the client certainly parked in its select? It created its timer,
+	// has not synchronized since, and there is nothing it could consume.
+	cur := d.m.cur
+	parked := d.m.timerSeen && cur != nil && !cur.returned && len(cur.updates) == cur.reportedPos && d.clk.Pending() > 0
+	wake := parked && d.m.shutdownBegun
 	d.m.mu.Unlock()
 	fired := d.clk.FireNext(d.clk.Now().Add(time.Hour))
 	d.m.mu.Lock()
+	if wake && fired {
+		d.m.wokenAfterShutdown = true
+	}
 	d.m.logf("driver: fire timer (%v)", fired)
 	d.m.mu.Unlock()
 	d.selectMaybe = false
